@@ -1,14 +1,17 @@
 ---------------------------- MODULE Trace_C01st ----------------------------
 (* C01, the text nodes of the STYLESHEET (XSLT 3.4): [e |-> "StText", raw (content items of a literal result     *)
 (* element, see StylesheetTree.tla), preserve (xml:space="preserve" on it), got (its children in the result)]     *)
-(* accepted iff got = StylesheetTree!ResultChildren(raw, preserve).                                               *)
+(* accepted iff got = StylesheetTree!ResultChildren(raw, preserve).  With `chain` (the xml:space values from the  *)
+(* xsl:stylesheet element of the element's own document down to it) preserve is StylesheetTree!Preserved(chain);  *)
+(* `place` (main / included / imported) and `outer` (xml:space of the including document) are recorded only.      *)
 EXTENDS StylesheetTree, TLC, Json, IOUtils
 VARIABLES l, st, failed, done
 
 StStep(s, ev) ==
-  LET want == ResultChildren(ev.raw, ev.preserve) IN
+  LET pres == IF "chain" \in DOMAIN ev THEN Preserved(ev.chain) ELSE ev.preserve
+      want == ResultChildren(ev.raw, pres) IN
   [ok |-> want = ev.got, st |-> s, cont |-> TRUE,
-   msg |-> (IF ev.got = ResultChildrenCommentsInvisible(ev.raw, ev.preserve) THEN "KNOWN stylesheetCommentDoesNotSplitText " ELSE "")
+   msg |-> (IF ev.got = ResultChildrenCommentsInvisible(ev.raw, pres) THEN "KNOWN stylesheetCommentDoesNotSplitText " ELSE "")
            \o "want " \o ToString(want) \o " got " \o ToString(ev.got)]
 
 INSTANCE TraceBase WITH StInit <- 0, Step <- StStep
